@@ -332,7 +332,8 @@ def load_order():
 
 def compile_order():
     src = strip_comments(rd("driver/src/modules/loader/compile.rs"))
-    body = fn_body(src, "compile_module")
+    fn_body(src, "compile_module")          # must exist; its steps may live in helper functions of the file
+    body = src
     def at(rx, what):
         m = re.search(rx, body)
         if not m:
@@ -368,6 +369,70 @@ def resolution_shape():
         raise ExtractError("get_load_result: a symbols import no longer yields its first symbol")
 
 
+def repl_memo():
+    """driver/src/api/repl.rs: is the session's loaded-module record, taken out of the VM with
+    take_repl_session(), put back when loading the input's imports FAILS as well?"""
+    src = strip_comments(rd("driver/src/api/repl.rs"))
+    body = fn_body(src, "run_with_vm_and_opt")
+    take = re.search(r"take_repl_session\s*\(", body)
+    call = re.search(r"\bload_modules_with_memo\s*\(", body)
+    if not take or not call or call.start() < take.start():
+        raise ExtractError("run_with_vm_and_opt: take_repl_session / load_modules_with_memo not found in that order")
+    # end of the call expression
+    depth, j = 0, call.end() - 1
+    while j < len(body):
+        if body[j] == "(":
+            depth += 1
+        elif body[j] == ")":
+            depth -= 1
+            if depth == 0:
+                break
+        j += 1
+    after = body[j + 1:]
+    sets = [m.start() for m in re.finditer(r"set_repl_session\s*\(", after)]
+    if not sets:
+        raise ExtractError("run_with_vm_and_opt: the session record is never put back")
+    if re.match(r"\s*\?", after):
+        return False                       # `load(..)?` : the error leaves before anything is put back
+    # `match load(..) { Ok(..) => .., Err(..) => .. }`
+    before = body[:call.start()]
+    mm = re.search(r"\bmatch\s*$", before.rstrip() + " ") or re.search(r"\bmatch\s+$", before)
+    if re.search(r"\bmatch\s*$", before.rstrip()):
+        k = after.index("{")
+        inner, _ = block_at(after, k, "match on the load result")
+        oks = [b for p_, b in arms(inner) if p_.startswith("Ok")]
+        errs = [b for p_, b in arms(inner) if p_.startswith("Err")]
+        if not oks or not errs:
+            raise ExtractError("run_with_vm_and_opt: match on the load result without Ok / Err arms")
+        return all("set_repl_session" in b for b in errs)
+    # `let r = load(..); <put back>; let imports = r?;`
+    var = re.search(r"\blet\s+(?:mut\s+)?(\w+)\s*(?::[^=]+)?=\s*$", before.rstrip() + " ")
+    var = re.search(r"\blet\s+(?:mut\s+)?(\w+)\s*(?::[^=;]+)?=\s*$", before.rstrip())
+    if var:
+        use = re.search(r"\b%s\s*\?" % re.escape(var.group(1)), after)
+        ret = re.search(r"\breturn\b", after)
+        first_exit = min([x.start() for x in (use, ret) if x] or [len(after)])
+        return sets[0] < first_exit
+    raise ExtractError("run_with_vm_and_opt: cannot tell whether the session record is put back when loading fails")
+
+
+def unfinished_forgotten():
+    """compile.rs: a module that was registered but whose top level did not complete is removed from
+    loaded_modules again, under a flag that is set only after the body ran and its globals were synced"""
+    src = strip_comments(rd("driver/src/modules/loader/compile.rs"))
+    rm = re.search(r"\bif\s+([^{]*)\{\s*[^}]*loaded_modules\s*\.\s*remove\s*\(", src)
+    if not rm:
+        raise ExtractError("compile.rs: an unfinished module is no longer removed from loaded_modules")
+    flag = re.search(r"!\s*\*?\s*(\w+)", rm.group(1))
+    if not flag or not re.search(r"is_err\s*\(\s*\)", rm.group(1)):
+        raise ExtractError("compile.rs: the removal is no longer conditional on `failed and not initialised`")
+    sync = re.search(r"sync_globals_to_hashmap\s*\(", src)
+    setf = [m.start() for m in re.finditer(r"\*?\s*%s\s*=\s*true" % re.escape(flag.group(1)), src)]
+    reg = re.search(r"self\s*\.\s*register_exports\s*\(", src)
+    if not sync or not setf or not reg or not (sync.start() < setf[0] < reg.start()):
+        raise ExtractError("compile.rs: the `initialised` flag is no longer set between sync_globals_to_hashmap and register_exports")
+
+
 @extract.register("ModulesTables")
 def gen_modules_tables():
     pats = script_patterns()
@@ -383,6 +448,8 @@ def gen_modules_tables():
     compile_order()
     module_t = grant_table(strip_comments(rd("driver/src/modules/loader/compile.rs")), "compile.rs")
     resolution_shape()
+    restored = repl_memo()
+    unfinished_forgotten()
 
     def tbl(name, t):
         return (f"Definition {name} (f : form_kind) : grant :=\n  match f with\n"
@@ -404,5 +471,7 @@ def gen_modules_tables():
              "(* what an import form adds to the importer's known_globals *)\n"
              "Inductive form_kind := KModule | KAlias | KSymbols | KWildcard.\n"
              "Inductive grant := GExports | GSymbols | GNone.\n"
-             + tbl("entry_grant", entry_t) + tbl("module_grant", module_t))
+             + tbl("entry_grant", entry_t) + tbl("module_grant", module_t)
+             + "\n(* run_with_vm: the session's loaded-module record is put back when an input's imports fail *)\n"
+             f"Definition memo_restored_on_error : bool := {b(restored)}.\n")
     write_if_changed("ModulesTables.v", text)
